@@ -434,6 +434,12 @@ func GenHistory(seed uint64, p *Profile) *Scenario {
 					if op == "type_add" {
 						st.Name = typeNames[g.nextBlk%3] // the members of a block register the same name
 					}
+					if op == "comp_update" || op == "comp_delete" {
+						st.Typ = Ref{K: "comp", I: g.nextBlk % 3}
+					}
+					if op == "unsubscribe" || op == "subscribe" {
+						st.Typ = Ref{K: "reg", I: g.nextBlk % 3}
+					}
 					if op == "comp_add" && r.Bool(0.6) {
 						// ... and add the same component
 						st.Typ, st.Ent = Ref{K: "reg", I: g.nextBlk % 3}, Ref{K: "any", I: g.nextBlk % 3}
